@@ -20,7 +20,8 @@ RULE = ('generated classes: 1-2 interfaces with 1-4 properties each over every b
         'PropertiesChanged(interface, {name: value}, []) per assignment when the mode is true, none when false. '
         'Non-trivial = a Set followed by a Get, or a colliding property name, or an inherited property; distinct = '
         'case JSON.')
-ASSUMPTIONS = ['properties are assigned before export in their natural Python type; later assignments also use values wrapped '
+ASSUMPTIONS = ['properties are assigned before export in their natural Python type - after construction, or (a third of the '
+               'cases) by a subclass constructor before DBusObject.__init__ runs; later assignments also use values wrapped '
                'in the declared or in another fitting txdbus integer type',
                '"the new value" in PropertiesChanged is read as a D-Bus value: for a basic declared type its variant must '
                'have that type (the reading the statement spells out for Get)',
@@ -176,13 +177,26 @@ def run_case(case):
     except Exception as e:
         return [Disc(exc_key(e, 'build.class'), exc_detail(e))]
     try:
-        obj = cls('/props')
         store = {}
         attrs = case['attrs']
-        for a in attrs:      # assigned before export
+        if len(attrs) % 3 == 1:
+            # a subclass whose constructor assigns its properties BEFORE it calls the base constructor (upstream supports
+            # property access prior to object construction; cooperative multiple inheritance produces this order)
+            inits = [(a['attr'], _natural(_pspec(case, a['iface'], a['pname'])['sig'], a['init'])) for a in attrs]
+
+            def early_init(self, path, inits=inits):
+                for attr, v in inits:
+                    setattr(self, attr, v)
+                O.DBusObject.__init__(self, path)
+            cls = type('PEarly', (cls,), {'__init__': early_init})
+            obj = cls('/props')
+        else:
+            obj = cls('/props')
+            for a in attrs:      # assigned before export
+                spec = _pspec(case, a['iface'], a['pname'])
+                setattr(obj, a['attr'], _natural(spec['sig'], a['init']))
+        for a in attrs:
             spec = _pspec(case, a['iface'], a['pname'])
-            v = _natural(spec['sig'], a['init'])
-            setattr(obj, a['attr'], v)
             store[(a['iface'], a['pname'])] = R.normal_form(spec['sig'], a['init'])
         conn = _Conn()
         h = O.DBusObjectHandler(conn)
